@@ -5,6 +5,8 @@ static Text operator+(Text a,const Text&b){ a.insert(a.end(),b.begin(),b.end());
 template<class A> static void escape_event(Guarded&in_ar,Guarded&out_ar,const Text&in,bool explicit_range,int sp,int nb){
   typedef typename A::Ch Ch; size_t n=in.size(); size_t cap=(nb?6:3)*n+1;
   Ch*src=in_ar.put<Ch>(in,!explicit_range); Ch*dst=(Ch*)out_ar.tail(cap*sizeof(Ch)); for(size_t i=0;i<cap;++i) dst[i]=(Ch)0xEE;
+  // every third call: input and output in ONE buffer, the output starting exactly where the input (and its terminator) ends - adjacent is not overlapping
+  { static unsigned long layout=0; size_t need=n+(explicit_range?0:1); if((layout++)%3==0 && need>0 && (char*)(dst-need)>=out_ar.base){   /* (an empty explicit range would coincide with the output: the library takes in == out for an in-place call and refuses) */ src=dst-need; for(size_t i=0;i<n;++i) src[i]=(Ch)in[i]; if(!explicit_range) src[n]=0; } }
   Ch*ret=nullptr; g.set_case(J().str("driver","escape").raw("in",jtext(in)).num("sp",sp).num("nb",nb).num("w",A::W).done());
   int fault=guarded_call([&]{ ret= explicit_range? A::EscapeEx(src,src+n,dst,sp,nb) : A::Escape(src,dst,sp,nb); });
   long off= (fault||!ret)? -1 : (long)(ret-dst); Text out; bool term=false; if(off>=0&&off<(long)cap){ out=to_text<Ch>(dst,dst+off); term=(dst[off]==0); }
